@@ -1830,6 +1830,12 @@ class ThreeFrameTVG():
                 # This is when the left or right intronic insertion of a fusion
                 # is smaller than 3. The `end` should contain an unique out node
                 end = self.merge_with_outbonds(end)[0]
+                # The merged node can still be too short, e.g. when a variant
+                # leaves only 1 nt of the donor before a 1 nt insertion.
+                while right_index >= len(end.seq.seq) \
+                        and len(end.get_out_nodes()) == 1 \
+                        and len(end.get_out_nodes()[0].get_in_nodes()) == 1:
+                    end = self.merge_with_outbonds(end)[0]
             elif end.global_variant and end.global_variant.is_fusion() \
                     and ref_node.has_exclusive_outbond_node():
                 end = self.merge_with_outbonds(ref_node)[0]
